@@ -441,6 +441,9 @@ class CallMixin:
         if h is not None:
             return h
         short = name
+        if kwargs and short in self.BUILTIN_NAMES and short not in ("dict", "enumerate", "max", "min") and short.split(".")[-1] not in EXT_EXC:
+            # the models of the builtins below read positional arguments only: a keyword argument (sorted(key=), sum(start=), int(base=), ...) changes the result
+            raise Unsupported(f"builtin {short} called with keyword argument(s) {sorted(kwargs)}")
         if short == "isinstance":
             t = self.isinstance_(args[0], args[1], st)
             return [("val", True if z3.is_true(t) else False if z3.is_false(t) else Sym("bool", t), st)]
@@ -473,7 +476,13 @@ class CallMixin:
                 return [("val", float(v), st)]
             return [("val", Sym("real", zreal(v)), st)]
         if short in ("max", "min"):
+            if set(kwargs) - {"default"} or (len(args) > 1 and kwargs):
+                raise Unsupported(f"{short} with keyword argument(s) {sorted(kwargs)}")
             vals = list(args) if len(args) > 1 else self.concrete_items(args[0], st)
+            if not vals:
+                if "default" in kwargs:
+                    return [("val", kwargs["default"], st)]
+                return self.raise_ext(st, "ValueError", f"{short}() arg is an empty sequence")
             acc = vals[0]
             for v in vals[1:]:
                 if is_concrete(acc) and is_concrete(v):
@@ -554,6 +563,11 @@ class CallMixin:
                 st.assume(z3.Implies(args[0].t > 0, z3.And(j.t >= 0, j.t < args[0].t)))
                 n = z3.If(args[0].t > 0, args[0].t, 0)
                 return [("val", st.alloc("list", {"__kind__": "glist", "len": n, "elem": j, "is_range": True}), st)]
+        if short == "enumerate" and (len(args) > 1 or kwargs):
+            start = args[1] if len(args) > 1 else kwargs.get("start")
+            if set(kwargs) - {"start"} or not isinstance(start, int) or isinstance(start, bool):
+                raise Unsupported("enumerate with a symbolic start")
+            return [("val", tuple((i, x) for i, x in enumerate(self.concrete_items(args[0], st), start)), st)]
         if short == "enumerate" and isinstance(args[0], Ref) and st.get(args[0]).get("__kind__") == "glist":
             g = st.get(args[0])
             j = fresh("int", "enum_index")
